@@ -66,6 +66,8 @@ class Tr:
         self.lists = set(spec.get('lists', []))
         self.notes = []
         self.loopn = 0
+        import re as _re
+        self.defined = set(p for p, _ in spec['params']) | set(_re.findall(r'let (\w+)', spec.get('prelude', '')))
 
     # ---------------------------------------------------------------- expressions
     def ty(self, node):
@@ -89,6 +91,8 @@ class Tr:
             return '(' + self.bind[s] + ')' if ' ' in self.bind[s] else self.bind[s]
         if isinstance(node, ast.Constant):
             v = node.value
+            if v is None:
+                return 'none'
             if v is True:
                 return 'true'
             if v is False:
@@ -156,6 +160,21 @@ class Tr:
                 # boolean-mask read of a componentwise (scalar-modelled) array: the masked component
                 return self.expr(base)
             return '(Src.get %s %s)' % (self.expr(base), self.expr(node.slice))
+        if isinstance(node, ast.Dict):
+            # a dictionary with literal keys: the tuple of its values, in key order
+            if not all(isinstance(kx, ast.Constant) and isinstance(kx.value, str) for kx in node.keys):
+                raise Unsupported('dictionary ' + s)
+            self.notes.append('dictionary %s as the tuple of its values' % [kx.value for kx in node.keys])
+            return '(' + ', '.join(self.expr(v) for v in node.values) + ')'
+        if isinstance(node, ast.ListComp):
+            if len(node.generators) != 1 or node.generators[0].ifs or not isinstance(node.generators[0].target, ast.Name):
+                raise Unsupported('comprehension ' + s)
+            g = node.generators[0]
+            return '(List.map (fun %s => %s) %s)' % (lname(g.target.id), self.expr(node.elt), self.expr(g.iter))
+        if isinstance(node, ast.Call) and src(node.func) in self.spec.get('fbind', {}):
+            if node.keywords:
+                raise Unsupported('keyword arguments in ' + s)
+            return '(%s %s)' % (self.spec['fbind'][src(node.func)], ' '.join(self.expr(a) for a in node.args))
         if isinstance(node, ast.Call):
             f = src(node.func)
             args = node.args
@@ -200,7 +219,12 @@ class Tr:
 
         def target(t):
             st = src(t)
-            if st in self.bind:
+            wl = self.spec.get('writelogs', {})
+            if st in wl:
+                add(wl[st][0])
+            elif isinstance(t, ast.Subscript) and src(t.value) in wl:
+                add(wl[src(t.value)][0])
+            elif st in self.bind:
                 add(self.bind[st])
             elif isinstance(t, ast.Name):
                 add(lname(t.id))
@@ -227,6 +251,16 @@ class Tr:
 
     def let_target(self, t, val_text, rest, ind):
         st = src(t)
+        wl = self.spec.get('writelogs', {})
+        if isinstance(t, ast.Subscript) and src(t.value) in wl:
+            log, idx = wl[src(t.value)]
+            idx = idx.replace('$i', self.expr(t.slice))
+            return '%slet %s := Src.wr %s %s %s\n%s' % (ind, log, log, idx, val_text, rest)
+        if st in wl:
+            log, idx = wl[st]
+            return '%slet %s := Src.wr %s %s %s\n%s' % (ind, log, log, idx, val_text, rest)
+        if isinstance(t, ast.Tuple) and all(isinstance(e, ast.Name) for e in t.elts):
+            return '%slet (%s) := %s\n%s' % (ind, ', '.join(lname(e.id) for e in t.elts), val_text, rest)
         if st in self.bind or isinstance(t, ast.Name):
             nm = self.bind[st] if st in self.bind else lname(t.id)
             ann = ' : ' + self.types[nm] if nm in self.types else ''
@@ -269,10 +303,34 @@ class Tr:
             if note not in self.notes:
                 self.notes.append(note)
             return nxt(ind)
-        if isinstance(st, ast.Expr) and s in self.effects:
+        if isinstance(st, (ast.Expr, ast.Assign)) and s in self.effects:
             return '%slet %s\n%s' % (ind, self.effects[s], nxt(ind))
+        if isinstance(st, (ast.Assign, ast.AugAssign)):
+            self.defined.update(self.assigned([st]))
+        if isinstance(st, ast.If) and not st.orelse and self.spec.get('join_ifs') and src(st.test) not in self.assume_false and all(
+                (isinstance(b, ast.Assign) and len(b.targets) == 1) or
+                (isinstance(b, ast.Expr) and src(b) in self.effects) for b in st.body):
+            # `if c: x = e` without an else: `x := if c then e else <x as it was | default>`
+            cond = self.expr(st.test)
+            out = ''
+            for b in st.body:
+                if isinstance(b, ast.Expr):
+                    nm, val = [x.strip() for x in self.effects[src(b)].split(':=', 1)]
+                    out += '%slet %s := if %s then %s else %s\n' % (ind, nm, cond, val, nm)
+                    continue
+                names = self.assigned([b])
+                if len(names) != 1:
+                    raise Unsupported('conditional assignment ' + src(b))
+                nm = names[0]
+                prev = nm if nm in self.defined else 'default'
+                inner = self.let_target(b.targets[0], self.expr(b.value), '', '').strip()
+                # inner is `let nm := value`
+                val = inner.split(':=', 1)[1].strip()
+                out += '%slet %s := if %s then %s else %s\n' % (ind, nm, cond, val, prev)
+                self.defined.add(nm)
+            return out + nxt(ind)
         if isinstance(st, ast.Return):
-            if st.value is None:
+            if st.value is None or (self.spec.get('return_self') and src(st.value) == 'self'):
                 return k(ind)
             pre = self.with_draws(st.value, ind)
             val = self.expr(st.value, self.spec.get('ret_want'))
@@ -288,6 +346,12 @@ class Tr:
             if isinstance(t, ast.Subscript):
                 bt = self.ty(t.value)
                 want = bt[5:] if bt and bt.startswith('List ') else None
+            up = self.spec.get('unpack', {}).get(src(st.value))
+            if isinstance(t, ast.Tuple) and up and len(t.elts) in up:
+                out = nxt(ind)
+                for te, nm in reversed(list(zip(t.elts, up[len(t.elts)]))):
+                    out = self.let_target(te, nm, out, ind)
+                return out
             if isinstance(t, ast.Tuple) and isinstance(st.value, ast.Tuple) and len(t.elts) == len(st.value.elts):
                 out = nxt(ind)
                 for te, ve in reversed(list(zip(t.elts, st.value.elts))):
@@ -335,6 +399,15 @@ class Tr:
 
     def for_loop(self, st, rest, k, ind):
         it = st.iter
+        en = self.spec.get('enumerate', {})
+        if src(st.target) + ' in ' + src(it) in en:
+            # `for (i, obj) in enumerate(<objects>)`: the loop runs over the index; what is done to
+            # `obj` is recorded in write logs keyed by the index
+            v, n = en[src(st.target) + ' in ' + src(it)]
+            fake = ast.parse('for %s in range(%s):\n    pass' % (v, n)).body[0]
+            fake.body = st.body
+            fake.orelse = st.orelse
+            return self.for_loop(fake, rest, k, ind)
         if not (isinstance(it, ast.Call) and src(it.func) == 'range' and isinstance(st.target, ast.Name)):
             raise Unsupported('loop header ' + src(it))
         a = it.args
@@ -520,6 +593,59 @@ KERNELS = [
                'self.proposal_dist.logpdf(proposal, current_pos)': 'fwd'},
          draws={'self.random_generator.uniform()': 'us'},
          assume_false=['numpy.isnan(ar)'], ret_extra='us'),
+    # --- Chain.step: what is evaluated, decided and written where (C01, C08, C18); the transdimensional
+    #     bookkeeping (`_state` entries) is C10's model and is not translated here
+    dict(name='stepCore', file='epsie/chain/chain.py', cls='Chain', func='step',
+         params=[('α', 'Type'), ('β', 'Type'), ('hasblobs', 'Bool'), ('len', 'Int'), ('iteration', 'Int'),
+                 ('current_pos', 'α'), ('current_stats', 'Rat × Rat'), ('current_blob', 'Option β'),
+                 ('jumped', 'α'), ('r_logl', 'Rat'), ('r_logp', 'Rat'), ('r_blob', 'Option β'),
+                 ('NEGINF', 'Rat → Bool'),
+                 ('ACCEPT', 'Rat → Rat → α → Rat → Rat → α → Bool × AR')],
+         ret='α × List (Int × α) × List (Int × (Rat × Rat)) × List (Int × (AR × Bool)) × List (Int × Option β) × Int × Nat × Nat',
+         types={'ar': 'AR'},
+         bind={'self.current_position': 'current_pos', 'self.current_stats': 'current_stats',
+               'self.current_blob': 'current_blob', 'self.proposal_dist.jump(current_pos)': 'jumped',
+               'self.proposed_position': 'proposed', 'self._hasblobs': 'hasblobs',
+               "current_stats['logl']": 'current_stats.1', "current_stats['logp']": 'current_stats.2',
+               'logp == -numpy.inf': 'NEGINF logp', 'len(self)': 'len', 'self._iteration': 'iteration'},
+         fbind={'self._acceptance_ratio': 'ACCEPT'},
+         unpack={'r': {3: ['r_logl', 'r_logp', 'r_blob'], 2: ['r_logl', 'r_logp']}},
+         assume_false=['self.transdimensional'],
+         effects={'r = self.model(**proposal)': 'calls := calls + 1',
+                  'self.proposal_dist.update(self)': 'updates := updates + 1'},
+         writelogs={'self._positions': ('positionsW', '$i'), 'self._stats': ('statsW', '$i'),
+                    'self._acceptance': ('acceptanceW', '$i'), 'self._blobs': ('blobsW', '$i')},
+         prelude='let calls : Nat := 0\n  let updates : Nat := 0\n  let positionsW : List (Int × α) := []\n'
+                 '  let statsW : List (Int × (Rat × Rat)) := []\n  let acceptanceW : List (Int × (AR × Bool)) := []\n'
+                 '  let blobsW : List (Int × Option β) := []',
+         return_self=True, join_ifs=True,
+         result='(proposed, positionsW, statsW, acceptanceW, blobsW, iteration, calls, updates)'),
+    # --- the apply block of swap_temperatures: what is moved by the swap index, what is not (C09, C19)
+    dict(name='sweepApply', file='epsie/chain/ptchain.py', cls='ParallelTemperedChain', func='swap_temperatures',
+         params=[('α', 'Type'), ('σ', 'Type'), ('β', 'Type'), ('γ', 'Type'),
+                 ('inst1', 'Inhabited α'), ('inst2', 'Inhabited σ'), ('inst3', 'Inhabited β'), ('inst4', 'Inhabited γ'),
+                 ('ntemps', 'Int'), ('transdimensional', 'Bool'), ('hasblobs', 'Bool'), ('reset_after_swap', 'Bool'),
+                 ('iteration', 'Int'), ('lastclear', 'Int'),
+                 ('swap_index', 'List Int'), ('cur_pos', 'List α'), ('cur_stats', 'List σ'), ('cur_blob', 'List β'),
+                 ('cur_active', 'List γ')],
+         ret='List ((Int × Int) × α) × List ((Int × Int) × σ) × List ((Int × Int) × β) × List (Int × γ) × List (Int × Unit)',
+         bind={'self.chains[swk].current_position': 'Src.get cur_pos swk',
+               'self.chains[swk].current_stats': 'Src.get cur_stats swk',
+               'self.chains[swk].current_blob': 'Src.get cur_blob swk',
+               'self.chains[swk]._active_props': 'Src.get cur_active swk',
+               'self.transdimensional': 'transdimensional', 'self.hasblobs': 'hasblobs',
+               'self.reset_after_swap': 'reset_after_swap', 'self.iteration': 'iteration',
+               'self.lastclear': 'lastclear'},
+         enumerate={'(tk, chain) in enumerate(self.chains)': ('tk', 'ntemps')},
+         writelogs={'chain._positions': ('positionsW', '(tk, $i)'), 'chain._stats': ('statsW', '(tk, $i)'),
+                    'chain._blobs': ('blobsW', '(tk, $i)'), 'chain._active_props': ('activeW', 'tk')},
+         effects={'chain.reset_proposals()': 'resetW := Src.wr resetW tk ()'},
+         carried=['positionsW', 'statsW', 'blobsW', 'activeW', 'resetW'],
+         start_at='new_positions = ', stop_before='self._temperature_acceptance[', join_ifs=True,
+         prelude='let positionsW : List ((Int × Int) × α) := []\n  let statsW : List ((Int × Int) × σ) := []\n'
+                 '  let blobsW : List ((Int × Int) × β) := []\n  let activeW : List (Int × γ) := []\n'
+                 '  let resetW : List (Int × Unit) := []',
+         result='(positionsW, statsW, blobsW, activeW, resetW)'),
     # --- epsie/chain/ptchain.py: sweep schedule, the sweep loop, row indices, the row views (C03, C09)
     dict(name='sweepDue', file='epsie/chain/ptchain.py', cls='ParallelTemperedChain', func='step',
          params=[('ntemps', 'Int'), ('iteration', 'Int'), ('swap_interval', 'Int')], ret='Bool',
